@@ -13,7 +13,7 @@ from __future__ import annotations
 
 import copy
 
-from .. import env, gen, rig
+from .. import env, gen, rig, tconc
 from ..oracles import run_ending
 from ..view import View
 from . import common
@@ -243,6 +243,9 @@ def work(ctx, tier):
                 sc["calls"][0]["outcomes"][0] = ["sp", sp, "TRANSIENT"] if sp == "nested_open" else ["sp", sp]
                 run_one(ctx, sc, entry, stats, manual=False)
                 ctx.inc("real_loop_runs")
+    # calls that OVERLAP on one breaker (threads; a thread may be parked inside the breaker's critical section): once all have ended,
+    # nobody holds the probe slot - the breaker recovers now and in the next outage
+    tconc.thread_slice(ctx, tier, common.rng_for(ctx, "threads"), ["wedge", "probe"], budget=False, breaker=True, components=True, long_ops=True)
     common.flush_stats(ctx, stats)
 
 
@@ -258,13 +261,14 @@ def conclude(ctx):
         "settle:interrupted-inside": (ctx.cnt["settle:interrupted-inside"], 200),
         "distinct (entry, termination) cells": (len(ctx.sets["cells"]), 60),
     }
+    floors.update(tconc.floors(ctx, components=True))
     return dict(
         rule=(
             "fault enumeration: per base scenario x 6 breaker-carrying entry points, a clean run discovers callback invocations (classifier, result classifier, strategy, "
             "abort predicate, sleep handler, sleeper, attempt start/end hooks), suspension points and attempts; one injected run per (callback invocation x exception kind), "
             "(suspension point x {CancelledError, KeyboardInterrupt, SystemExit, close()}), (attempt x 8 special exceptions), (abort poll index), "
             "(interrupt landing inside breaker.record_success / record_failure before it acts x 3 kinds); "
-            "distinct_nontrivial = distinct (entry, termination kind) cells in which an admitted call was judged"
+            "distinct_nontrivial = distinct (entry, termination kind) cells in which an admitted call was judged" + tconc.RULE
         ),
         evaluations=ctx.cnt["injected_runs"],
         nontrivial=len(ctx.sets["cells"]),
@@ -280,6 +284,8 @@ def conclude(ctx):
 
 def replay(data):
     p = data["payload"]
+    if "tspec" in p:
+        return tconc.replay(p)
     sc, entry = p["scenario"], p["entry"]
     recs, h, world = rig.run(sc, entry)
     rec = recs[0]
